@@ -15,6 +15,7 @@
 package storage
 
 import (
+	"bytes"
 	"context"
 	"os"
 	"time"
@@ -189,11 +190,13 @@ func (s *SSD) lookup(q lookupQuery) (matches message.Frame) {
 			prefix = message.NewPrefix(q.Ssid, q.Until)
 			it.Seek(prefix)
 		} else {
+			// Continue behind the given message. Step over it only if it is still there:
+			// when it has expired since the previous page the seek already stands on the
+			// next message, which must not be skipped.
 			it.Seek(q.StartFromID)
-			if !it.Valid() {
-				return nil
+			if it.Valid() && bytes.Equal(it.Item().Key(), q.StartFromID) {
+				it.Next()
 			}
-			it.Next()
 		}
 
 		matchesSize := 0
